@@ -281,10 +281,20 @@ func (ch c03) framing(c *core.Ctx, env *hs.Env, rng *core.Rng, idx int) {
 			shape += "eO"
 		case 11: // an oversized message (any type) while a COPY-in is running: skipped once, in full; the COPY ends with an error
 			q := fmt.Sprintf("fcopy%d.%d.%d", c.Batch, idx, i)
-			progs[q] = &hs.Prog{Stmts: []*hs.Stmt{{ID: "fcopy", Cols: textCols(1), Params: []oid.Oid{}, Ops: []hs.Op{{K: "copy", Copy: &hs.CopyPlan{Format: wire.TextFormat, MaxReads: -1, OnErr: "propagate"}}}}}}
+			// (the handler reads to the end, or gives up after one or two chunks: a server that hands an oversized
+			// chunk out in pieces still owes the stream the rest of it)
+			progs[q] = &hs.Prog{Stmts: []*hs.Stmt{{ID: "fcopy", Cols: textCols(1), Params: []oid.Oid{}, Ops: []hs.Op{{K: "copy", Copy: &hs.CopyPlan{Format: wire.TextFormat, MaxReads: core.Pick(rng, []int{-1, -1, 1, 2}), OnErr: "propagate"}}}}}}
 			m = append(pg.Query(q), pg.CopyData(rng.Bytes(rng.Intn(200)))...)
 			sz := core.Pick(rng, []int{L + 1, L + 2, 2*L - 1, 2 * L, 2*L + 1, L + 100 + rng.Intn(3*L)})
-			m = append(m, pg.Raw(core.Pick(rng, []byte("ddQP~")), rng.Bytes(sz))...)
+			big := rng.Bytes(sz)
+			if rng.Bool() {
+				// the oversized body is a train of well-formed messages
+				inner := append(pg.Sync(), pg.Query("smuggled inside an oversized message during COPY")...)
+				for off := rng.Intn(len(inner)); off+len(inner) <= len(big); off += len(inner) {
+					copy(big[off:], inner)
+				}
+			}
+			m = append(m, pg.Raw(core.Pick(rng, []byte("dddQP~")), big)...)
 			m = append(m, pg.CopyDone()...) // stray by then
 			shape += "K"
 		case 9, 10: // a valid extended-protocol body cut short inside its (correct) frame: short data for the accessors
